@@ -172,7 +172,7 @@ class Gen:
             if self.params and self.r.random() < 0.6:
                 p = self.r.choice(self.params)
             else:
-                p = self.fresh(self.r.choice(["p", "par", "a", "ab", "theta", "beta", "bet", "x", "al", "alpha", "ph", "y", "var", "res", "val", "lambda", "is", "E", "I", "S", "N", "oo", "rhs", "np"]))
+                p = self.fresh(self.r.choice(["p", "par", "a", "ab", "theta", "beta", "bet", "x", "al", "alpha", "ph", "y", "var", "res", "val", "lambda", "is", "E", "I", "S", "N", "oo", "rhs", "np", "q0_phase", "q1r", "q"]))
                 self.params.append(p)
             self.features.add("param")
             return E("{%s}" % p, "sym", None, 10, syms=[p])
